@@ -83,12 +83,15 @@ def _run(check, ctx, rep, replay):
     bad = core.audit_sources(core.lean_sources())
     if bad:
         rep['problems'].append('forbidden construct in Lean sources: ' + '; '.join(bad[:5]))
-    theorems = []
+    theorems = []; axioms = {}
     for m, ns in check.all_modules():
-        theorems += core.theorems_of(os.path.join(LEAN_DIR, *m.split('.')) + '.lean', ns)
-    axioms = {}
+        ths = core.theorems_of(os.path.join(LEAN_DIR, *m.split('.')) + '.lean', ns)
+        theorems += ths
+        if ok_props and ths:
+            # one audit file per module: modules of one property need not be importable together
+            ax, txt = core.print_axioms(ctx, m, ths)
+            axioms.update(ax)
     if ok_props and theorems:
-        axioms, txt = core.print_axioms(ctx, [m for m, _ in check.all_modules()], theorems)
         for th in theorems:
             if th not in axioms:
                 rep['problems'].append('axiom audit: no report for %s' % th)
